@@ -63,6 +63,12 @@ pub fn generate_keypair_from_private_key(slice: &[u8]) -> (SaitoPublicKey, Saito
     (public_key.serialize(), secret_bytes)
 }
 
+/// the public key that belongs to a private key, or None where the bytes are no private key at all
+pub fn public_key_of(private_key: &SaitoPrivateKey) -> Option<SaitoPublicKey> {
+    let secret_key = SecretKey::from_slice(private_key).ok()?;
+    Some(PublicKey::from_secret_key(SECP256K1, &secret_key).serialize())
+}
+
 pub fn sign_blob<'a>(vbytes: &'a mut Vec<u8>, private_key: &SaitoPrivateKey) -> &'a mut Vec<u8> {
     let sig = sign(&hash(vbytes.as_ref()), private_key);
     vbytes.extend(&sig);
